@@ -84,7 +84,7 @@ func main() {
 			s.Path.HopMacs(w.Net, s.Walk)
 			topo, now, prov, pp := netgen.PathTerms(w, s)
 			port, ok, _ := s.Desc.L4.DstPort()
-			term := vgen.App("Prov.CPath", topo, now, s.Walk.MacsTerm(), prov, pp, s.Rec.Gallina(port, ok),
+			term := vgen.App("Prov.CPath", topo, now, s.Walk.MacsTerm(), prov, pp, netgen.RecTerm(s.Rec, port, ok),
 				vgen.N(uint64(s.StartRt)), p.MetaTerm(), vgen.B(valid), s.Walk.TraceTerm())
 			w.Tallies(run, p, s.Walk)
 			run.Tally("stream:" + stream + ":" + s.Walk.Final.Kind)
